@@ -78,6 +78,18 @@ CHECKS = {
              'SparseVec::from,get semantics; ' + TB,
         technique='MIR CFG reachability/dominance (write-after-view ordering) + exhaustive path-table extraction for encode/decode and the per-cell view table',
         ref='§4 C16'),
+    'C18': dict(
+        level='other',
+        text='Cache-key coverage (every builder setting read by code generation or after the skip decision is read by '
+             'rebuild_cache, modulo an exempt list with reasons); the skip-decision table of CTParserBuilder::build (both '
+             'metadata reads succeed, output strictly newer than grammar with that operand orientation, output readable and '
+             'containing the cache string computed by rebuild_cache); delete-before-regenerate by dominance; no failing exit '
+             '(Err return, `?`, explicit panic) after the output path is claimed without removal of the output - directly or '
+             'through a drop guard that owns the path and is disarmed only immediately before Ok exits; lexer rewrite rule.',
+        note='Necessary conditions for "ends in the state a clean build would". Equality with a clean build across arbitrary '
+             'file-system histories / clock granularity is NOT decided. Trusted: std::fs semantics; ' + TB,
+        technique='field-read coverage over the call-graph cone, path-table extraction of the skip decision, dominance/reachability of failing exits vs. deletion points and drop-guard typestate in MIR',
+        ref='§4 C18'),
     'C20': dict(
         level='other',
         text='All unchecked usize->StorageT narrowing casts (AsPrimitive::as_) in the library crates are enumerated from the '
